@@ -21,8 +21,8 @@
 (*  - anything else goes to the network-rule parser (Rule.tla / RuleText.tla  *)
 (*    say what that makes of it, or that it is rejected).                     *)
 (*                                                                            *)
-(* Blank means space or tab here (the alphabet of the bounded model); the     *)
-(* library trims with strings.TrimSpace.  Whether a field is an IP address is *)
+(* Fields are separated by space or tab; lines and cosmetic content are        *)
+(* trimmed with strings.TrimSpace (Trim below).  Whether a field is an IP is   *)
 (* decided by net/netip in the code; the model takes the set of address       *)
 (* literals that can occur as a constant (IPv4Lits, IPv6Lits), computed by    *)
 (* the harness with netip itself for exactly the fields of the bounded model. *)
@@ -35,9 +35,20 @@ IsBlank(c) == c \in {SP, TAB}
 
 RECURSIVE TrimL(_)
 TrimL(s) == IF s # <<>> /\ IsBlank(s[1]) THEN TrimL(Tail(s)) ELSE s
-RECURSIVE TrimR(_)
-TrimR(s) == IF s # <<>> /\ IsBlank(s[Len(s)]) THEN TrimR(SubSeq(s, 1, Len(s) - 1)) ELSE s
-Trim(s) == TrimR(TrimL(s))
+\* strings.TrimSpace, on the bytes of a UTF-8 text: the ASCII white space \t \n \v \f \r and blank, and - of the
+\* non-ASCII white space of Unicode - the two that are two bytes long, U+0085 (C2 85) and U+00A0 (C2 A0); the
+\* three-byte ones (U+1680, U+2000.., U+3000) are outside the alphabet of the model
+IsSpace1(c) == c \in {9, 10, 11, 12, 13, 32}
+IsSpace2(a, b) == a = 194 /\ b \in {133, 160}
+RECURSIVE TrimSpaceL(_)
+TrimSpaceL(s) == IF s # <<>> /\ IsSpace1(s[1]) THEN TrimSpaceL(Tail(s))
+                 ELSE IF Len(s) >= 2 /\ IsSpace2(s[1], s[2]) THEN TrimSpaceL(SubSeq(s, 3, Len(s)))
+                 ELSE s
+RECURSIVE TrimSpaceR(_)
+TrimSpaceR(s) == IF s # <<>> /\ IsSpace1(s[Len(s)]) THEN TrimSpaceR(SubSeq(s, 1, Len(s) - 1))
+                 ELSE IF Len(s) >= 2 /\ IsSpace2(s[Len(s) - 1], s[Len(s)]) THEN TrimSpaceR(SubSeq(s, 1, Len(s) - 2))
+                 ELSE s
+Trim(s) == TrimSpaceR(TrimSpaceL(s))
 
 MinOf(S) == CHOOSE x \in S : \A y \in S : x <= y
 StartsAt(s, i, m) == i + Len(m) - 1 <= Len(s) /\ SubSeq(s, i, i + Len(m) - 1) = m
